@@ -3,6 +3,8 @@ import GqlProofs.Grammar.Reject
 import GqlProofs.Grammar.ParserFacts
 import GqlProofs.Grammar.PrintSchema
 import GqlProofs.Parser.SoundSchemaTop
+import GqlProofs.Parser.FwdSchemaTop
+import GqlProofs.Parser.RetSchema
 /-
   C06 — the schema parser accepts exactly the type-system grammar, faithfully.
 
@@ -334,6 +336,130 @@ example : (parseSchema 0 [116,121,112,101,32,65,32,105,109,112,108,101,109,101,1
       = [[tKw "type", tName [65], tKw "implements", tName [66], tP .braceL, tName [97], tP .colon, tName [67], tP .braceR]] :=
   ⟨by decide, by decide⟩
 
+/-! ### the converse on printed trees: parse ∘ print = id (up to positions and the `BuiltIn` flag)
+
+  See the corresponding section of `Props/C05.lean` for `Fwd`, `Starts`, `erasePos`.
+
+  What the tokens carry.  `printSchema` writes a description as ONE token of kind String whose value
+  is the description text (nothing for the empty description); the parser reads the value of a
+  String or BlockString token as the description.  The forward lemmas are proved for both spellings:
+  `printItemK dk` is the unparse with descriptions as tokens of kind `dk`, `DescKind dk` says
+  `dk = .string ∨ dk = .blockString`, and `printItemK (fun _ => .string) it = (sItem it).2` is what
+  `printSchema` concatenates.
+
+  Side conditions (`ItemOK`, `PrintableSchema`): what the grammar requires (root operation types
+  present and named `query`/`mutation`/`subscription`, extensions extend something, directive
+  locations valid and present, constants where the grammar says `[Const]`), the unprinted parts are
+  what the parser builds (`DefOK`: the lists a kind does not use are empty, object fields have no
+  default value, input fields no arguments; `ValueOK` for values; extensions have no description),
+  and each of the five lists is in the order of its recorded positions.  Enum values named `true`,
+  `false`, `null` are NOT excluded: the parser reads them back. -/
+
+/-- **parse ∘ print** for type-system documents (any source index, any `BuiltIn` flag `b`) -/
+theorem C06_parse_print (d : SchemaDoc) (hp : PrintableSchema d) (src : Nat) (b : Bool) (inp : Bytes)
+    (htok : tokensOf inp = some (printSchema d)) :
+    ∃ d', parseSchemaSrc 0 src b inp = .ok d' ∧ d'.erasePos = (setBuiltIn b d).erasePos :=
+  parseSchemaSrc_print d hp src b inp htok
+
+/-- for `ParseSchema` -/
+theorem C06_parse_print_schema (d : SchemaDoc) (hp : PrintableSchema d) (inp : Bytes)
+    (htok : tokensOf inp = some (printSchema d)) :
+    ∃ d', parseSchema 0 inp = .ok d' ∧ d'.erasePos = (setBuiltIn false d).erasePos :=
+  parseSchemaSrc_print d hp 0 false inp htok
+
+/-- the same for any sequence of items in any order, each description `d` written as a String or
+    BlockString token (`dk d`): every item comes back in its list, in item order -/
+theorem C06_parse_print_items {dk : Bytes → Kind} (hdk : ∀ d, DescKind (dk d)) (items : List SItem) (hok : ∀ it ∈ items, ItemOK it)
+    (src : Nat) (b : Bool) (inp : Bytes) (htok : tokensOf inp = some (items.flatMap (printItemK dk))) :
+    ∃ d', parseSchemaSrc 0 src b inp = .ok d' ∧
+      d'.erasePos = (setBuiltIn b (items.foldl SchemaDoc.add SchemaDoc.empty)).erasePos :=
+  parseSchemaSrc_items hdk items hok src b inp htok
+
+/-- every tree the schema parser returns is printable (its `BuiltIn` flags are those of the source) … -/
+theorem C06_parse_printable (src : Nat) (b : Bool) (inp : Bytes) (d : SchemaDoc) (h : parseSchemaSrc 0 src b inp = .ok d) :
+    PrintableSchema d :=
+  parseSchemaSrc_printable src b inp d h
+
+/-- … so **parse ∘ print ∘ parse = parse** (up to positions): unparse an accepted schema document,
+    write the tokens in any way the lexer reads back, parse again with the same `BuiltIn` flag -/
+theorem C06_parse_print_parse (src src' : Nat) (b : Bool) (inp inp' : Bytes) (d : SchemaDoc)
+    (h : parseSchemaSrc 0 src b inp = .ok d) (htok : tokensOf inp' = some (printSchema d)) :
+    ∃ d', parseSchemaSrc 0 src' b inp' = .ok d' ∧ d'.erasePos = d.erasePos :=
+  parseSchemaSrc_print_parse src src' b inp inp' d h htok
+
+/-- the pieces, bottom-up -/
+theorem C06_parse_print_description {dk : Bytes → Kind} (hdk : ∀ d, DescKind (dk d)) (d : Bytes) (a : AS) (σ' : Stream)
+    (hs : Starts a.σ (printDescK dk d) σ') (hfol : d = [] → NoDesc σ') :
+    Fwd parseDescription a (fun x a' => x = d ∧ a'.σ = σ') :=
+  fwd_description hdk d a σ' hs hfol
+
+theorem C06_parse_print_implements_interfaces (ifs : List Name) (n : Nat) (a : AS) (σ' : Stream)
+    (hs : Starts a.σ (printImplements ifs) σ') (hfol : σ'.head.kind ≠ .amp) (hfol0 : ifs = [] → NoImplements σ') :
+    Fwd (parseImplementsInterfaces n) a (fun xs a' => xs = ifs ∧ a'.σ = σ') :=
+  fwd_implements ifs n a σ' hs hfol hfol0
+
+theorem C06_parse_print_union_member_types (ts : List Name) (n : Nat) (a : AS) (σ' : Stream)
+    (hs : Starts a.σ (printMembers ts) σ') (hfol : σ'.head.kind ≠ .pipe) (hfol0 : ts = [] → σ'.head.kind ≠ .equals) :
+    Fwd (parseUnionMemberTypes n) a (fun xs a' => xs = ts ∧ a'.σ = σ') :=
+  fwd_unionMembers ts n a σ' hs hfol hfol0
+
+theorem C06_parse_print_directive_locations (ls : List Name) (hne : ls ≠ [])
+    (hl : ∀ l ∈ ls, l ∈ Gql.Grammar.directiveLocationNames) (n : Nat) (a : AS) (σ' : Stream)
+    (hs : Starts a.σ (printSep .pipe ls) σ') (hfol : σ'.head.kind ≠ .pipe) :
+    Fwd (parseDirectiveLocations n) a (fun xs a' => xs = ls ∧ a'.σ = σ') :=
+  fwd_directiveLocations ls hne hl n a σ' hs hfol
+
+theorem C06_parse_print_arguments_definition {dk : Bytes → Kind} (hdk : ∀ d, DescKind (dk d)) (xs : List ArgDef) (hok : ∀ x ∈ xs, ArgDefOK x)
+    (n : Nat) (a : AS) (σ' : Stream) (hs : Starts a.σ (printArgDefsK dk xs) σ') (habs : xs = [] → σ'.head.kind ≠ .parenL) :
+    Fwd (parseArgumentDefs n) a (fun ys a' => ys.map ArgDef.erasePos = xs.map ArgDef.erasePos ∧ a'.σ = σ') :=
+  fwd_argDefs hdk xs hok n a σ' hs habs
+
+theorem C06_parse_print_fields_definition {dk : Bytes → Kind} (hdk : ∀ d, DescKind (dk d)) (xs : List FieldDef) (hok : ∀ x ∈ xs, FieldDefOK x)
+    (n : Nat) (a : AS) (σ' : Stream) (hs : Starts a.σ (printBlock (printFieldDefK dk) xs) σ')
+    (habs : xs = [] → σ'.head.kind ≠ .braceL) :
+    Fwd (parseFieldsDefinition n) a (fun ys a' => ys.map FieldDef.erasePos = xs.map FieldDef.erasePos ∧ a'.σ = σ') :=
+  fwd_fieldDefs hdk xs hok n a σ' hs habs
+
+theorem C06_parse_print_input_fields_definition {dk : Bytes → Kind} (hdk : ∀ d, DescKind (dk d)) (xs : List FieldDef)
+    (hok : ∀ x ∈ xs, InputFieldOK x) (n : Nat) (a : AS) (σ' : Stream)
+    (hs : Starts a.σ (printBlock (printInputFieldK dk) xs) σ') (habs : xs = [] → σ'.head.kind ≠ .braceL) :
+    Fwd (parseInputFieldsDefinition n) a (fun ys a' => ys.map FieldDef.erasePos = xs.map FieldDef.erasePos ∧ a'.σ = σ') :=
+  fwd_inputFields hdk xs hok n a σ' hs habs
+
+theorem C06_parse_print_enum_values_definition {dk : Bytes → Kind} (hdk : ∀ d, DescKind (dk d)) (xs : List EnumValDef)
+    (hok : ∀ x ∈ xs, EnumValOK x) (n : Nat) (a : AS) (σ' : Stream)
+    (hs : Starts a.σ (printBlock (printEnumValK dk) xs) σ') (habs : xs = [] → σ'.head.kind ≠ .braceL) :
+    Fwd (parseEnumValuesDefinition n) a (fun ys a' => ys.map EnumValDef.erasePos = xs.map EnumValDef.erasePos ∧ a'.σ = σ') :=
+  fwd_enumVals hdk xs hok n a σ' hs habs
+
+/-- a type definition after its description (`FolItem`: what follows is a description, a keyword
+    other than `implements`, or EOF) -/
+theorem C06_parse_print_type_definition {dk : Bytes → Kind} (hdk : ∀ d, DescKind (dk d)) (d : Definition) (hok : DefOK d) (n : Nat) (a : AS)
+    (σ' : Stream) (hs : Starts a.σ (DefKind.keyword d.kind :: printDefBodyK dk d) σ') (hfol : FolItem σ') :
+    Fwd (parseTypeSystemDefinition n d.desc) a
+      (fun y a' => y.erasePos = ({ d with builtIn := false } : Definition).erasePos ∧ a'.σ = σ') :=
+  fwd_typeSystemDefinition hdk d hok n a σ' hs hfol
+
+/-- `extend …` (schema and type extensions) -/
+theorem C06_parse_print_extension {dk : Bytes → Kind} (hdk : ∀ d, DescKind (dk d)) (it : SItem) (hok : ItemOK it)
+    (hext : (∃ s, it = .schemaExt s) ∨ (∃ d, it = .extension d)) (n : Nat) (doc : SchemaDoc) (a : AS) (σ' : Stream)
+    (hs : Starts a.σ (printItemK dk it) σ') (hfol : FolItem σ') :
+    Fwd (parseTypeSystemExtension n doc) a (fun y a' => y.erasePos = doc.erasePos.add it.norm ∧ a'.σ = σ') :=
+  fwd_typeSystemExtension hdk it hok hext n doc a σ' hs hfol
+
+theorem C06_parse_print_schema_definition (s : SchemaDef) (hok : SchemaDefOK s) (n : Nat) (a : AS) (σ' : Stream)
+    (hs : Starts a.σ (tKw "schema" :: printDirectives s.dirs ++ tP .braceL :: s.opTypes.flatMap printOpType ++ [tP .braceR]) σ') :
+    Fwd (parseSchemaDefinition n s.desc) a (fun y a' => y.erasePos = s.erasePos ∧ a'.σ = σ') :=
+  fwd_schemaDefinition s hok n a σ' hs
+
+theorem C06_parse_print_directive_definition {dk : Bytes → Kind} (hdk : ∀ d, DescKind (dk d)) (d : DirectiveDef) (hok : DirectiveDefOK d)
+    (n : Nat) (a : AS) (σ' : Stream)
+    (hs : Starts a.σ (tKw "directive" :: tP .at :: tName d.name :: printArgDefsK dk d.args
+      ++ (if d.repeatable then [tKw "repeatable"] else []) ++ tKw "on" :: printSep .pipe d.locations) σ')
+    (hfol : σ'.head.kind ≠ .pipe) :
+    Fwd (parseDirectiveDefinition n d.desc) a (fun y a' => y.erasePos = d.erasePos ∧ a'.σ = σ') :=
+  fwd_directiveDefinition hdk d hok n a σ' hs hfol
+
 #print axioms C06_print_in_grammar
 #print axioms C06_print_canonical
 #print axioms C06_recognise_sound
@@ -363,3 +489,11 @@ example : (parseSchema 0 [116,121,112,101,32,65,32,105,109,112,108,101,109,101,1
 #print axioms C06_parse_empty_tree
 #print axioms C06_parse_empty_counterexample
 #print axioms C06_parse_enum_literal_counterexample
+#print axioms C06_parse_print
+#print axioms C06_parse_print_schema
+#print axioms C06_parse_print_items
+#print axioms C06_parse_print_type_definition
+#print axioms C06_parse_print_extension
+#print axioms C06_parse_print_directive_definition
+#print axioms C06_parse_printable
+#print axioms C06_parse_print_parse
